@@ -105,6 +105,13 @@ class ProblemParser:
             iterator += 2
             continue
 
+        # objects that are not followed by a type are of the default type 'object'.
+        problem_objects.update(
+            {
+                name: PDDLObject(name=name, type=self.domain.types["object"])
+                for name in same_type_objects
+            }
+        )
         return problem_objects
 
     def parse_grounded_numeric_fluent(
